@@ -2480,6 +2480,163 @@ static void variant_program(uint64_t seed)
   R.nontrivial(vf::mix(h, 6));
 }
 
+// ------------------------------------------------------------------------------------------
+// visit over every shape of operand list: the dispatcher picks a different strategy depending on the number of
+// flattened cases (product of (alternatives + 1)): a hand-unrolled switch for small counts, a function table for
+// large ones.  All combinations of active alternatives of unary visits with 2..64 alternatives, binary visits from
+// 2x2 to 10x9 and ternary visits are compared with std::visit.  Added after the seeded change C20-w3-2 (switch
+// limit raised without extending the switch) was missed: only 4x4 (25 cases) and 17x16 (306) were visited before.
+// ------------------------------------------------------------------------------------------
+template <size_t I>
+struct ShapeTag
+{
+  int v;
+  static constexpr size_t id = I;
+};
+template <template <class...> class Var, class Seq>
+struct ShapeVarOf;
+template <template <class...> class Var, size_t... I>
+struct ShapeVarOf<Var, std::index_sequence<I...>>
+{
+  using type = Var<ShapeTag<I>...>;
+};
+template <template <class...> class Var, size_t N>
+using ShapeVar = typename ShapeVarOf<Var, std::make_index_sequence<N>>::type;
+
+template <class V, size_t... I>
+static void shape_set_impl(V &v, size_t idx, int val, std::index_sequence<I...>)
+{
+  using Fn              = void (*)(V &, int);
+  static const Fn tbl[] = {[](V &x, int y) { x.template emplace<I>(ShapeTag<I>{y}); }...};
+  tbl[idx](v, val);
+}
+template <size_t N, class V>
+static void shape_set(V &v, size_t idx, int val)
+{
+  shape_set_impl(v, idx, val, std::make_index_sequence<N>());
+}
+struct ShapeDescribe
+{
+  template <class... T>
+  std::string operator()(const T &...t) const
+  {
+    std::string s;
+    ((s += std::to_string(T::id) + ":" + std::to_string(t.v) + ","), ...);
+    return s;
+  }
+};
+
+template <size_t A>
+static void shape_visit1(Rng &r)
+{
+  auto &R = vf::report();
+  ShapeVar<nostd::variant, A> na;
+  ShapeVar<std::variant, A> sa;
+  for (size_t i = 0; i < A; ++i)
+  {
+    int x = static_cast<int>(r.below(1000));
+    shape_set<A>(na, i, x);
+    shape_set<A>(sa, i, x);
+    std::string a = nostd::visit(ShapeDescribe(), na), b = std::visit(ShapeDescribe(), sa);
+    VF_CHECK(a == b && na.index() == sa.index(), "var-visit-shape", "unary-" + std::to_string(A),
+             "active alternative " + std::to_string(i) + ": visit called the visitor as " + a + ", std::visit as " + b);
+  }
+  R.count("var_visit_shape_combinations", A);
+}
+template <size_t A, size_t B>
+static void shape_visit2(Rng &r)
+{
+  auto &R = vf::report();
+  ShapeVar<nostd::variant, A> na;
+  ShapeVar<std::variant, A> sa;
+  ShapeVar<nostd::variant, B> nb;
+  ShapeVar<std::variant, B> sb;
+  for (size_t i = 0; i < A; ++i)
+    for (size_t j = 0; j < B; ++j)
+    {
+      int x = static_cast<int>(r.below(1000)), y = static_cast<int>(r.below(1000));
+      shape_set<A>(na, i, x);
+      shape_set<A>(sa, i, x);
+      shape_set<B>(nb, j, y);
+      shape_set<B>(sb, j, y);
+      std::string a = nostd::visit(ShapeDescribe(), na, nb), b = std::visit(ShapeDescribe(), sa, sb);
+      VF_CHECK(a == b, "var-visit-shape", "binary-" + std::to_string(A) + "x" + std::to_string(B),
+               "active alternatives (" + std::to_string(i) + "," + std::to_string(j) + "): visit called the visitor as " + a +
+                   ", std::visit as " + b);
+    }
+  R.count("var_visit_shape_combinations", A * B);
+}
+template <size_t A, size_t B, size_t C>
+static void shape_visit3(Rng &r)
+{
+  auto &R = vf::report();
+  ShapeVar<nostd::variant, A> na;
+  ShapeVar<std::variant, A> sa;
+  ShapeVar<nostd::variant, B> nb;
+  ShapeVar<std::variant, B> sb;
+  ShapeVar<nostd::variant, C> nc;
+  ShapeVar<std::variant, C> sc;
+  for (size_t i = 0; i < A; ++i)
+    for (size_t j = 0; j < B; ++j)
+      for (size_t k = 0; k < C; ++k)
+      {
+        int x = static_cast<int>(r.below(1000));
+        shape_set<A>(na, i, x);
+        shape_set<A>(sa, i, x);
+        shape_set<B>(nb, j, x + 1);
+        shape_set<B>(sb, j, x + 1);
+        shape_set<C>(nc, k, x + 2);
+        shape_set<C>(sc, k, x + 2);
+        std::string a = nostd::visit(ShapeDescribe(), na, nb, nc), b = std::visit(ShapeDescribe(), sa, sb, sc);
+        VF_CHECK(a == b, "var-visit-shape", "ternary-" + std::to_string(A) + "x" + std::to_string(B) + "x" + std::to_string(C),
+                 "active alternatives (" + std::to_string(i) + "," + std::to_string(j) + "," + std::to_string(k) +
+                     "): visit called the visitor as " + a + ", std::visit as " + b);
+      }
+  R.count("var_visit_shape_combinations", A * B * C);
+}
+static void visit_shape_program(uint64_t seed)
+{
+  Rng r(seed);
+  // flattened case counts: 3,9,...  unary 2..64 -> 3..65; binary (A+1)(B+1); ternary (A+1)(B+1)(C+1)
+  switch (r.below(6))
+  {
+    case 0:
+      shape_visit1<2>(r);
+      shape_visit1<31>(r);
+      shape_visit1<32>(r);   // 33 cases: the last one the switch handles
+      shape_visit1<33>(r);   // 34
+      shape_visit1<40>(r);
+      shape_visit1<64>(r);   // 65
+      break;
+    case 1:
+      shape_visit2<2, 2>(r);
+      shape_visit2<5, 5>(r);  // 36
+      shape_visit2<4, 6>(r);  // 35
+      shape_visit2<3, 7>(r);  // 32
+      break;
+    case 2:
+      shape_visit2<5, 6>(r);  // 42
+      shape_visit2<7, 7>(r);  // 64
+      shape_visit2<6, 8>(r);  // 63
+      break;
+    case 3:
+      shape_visit2<8, 7>(r);   // 72
+      shape_visit2<10, 9>(r);  // 110
+      shape_visit2<1, 32>(r);  // 66
+      break;
+    case 4:
+      shape_visit3<2, 2, 2>(r);  // 27
+      shape_visit3<3, 3, 3>(r);  // 64
+      shape_visit3<2, 3, 4>(r);  // 60
+      break;
+    default:
+      shape_visit3<3, 3, 2>(r);  // 48
+      shape_visit3<4, 4, 3>(r);  // 100
+      shape_visit3<1, 1, 15>(r); // 64
+  }
+  vf::report().count("var_visit_shape_programs");
+}
+
 int main(int argc, char **argv)
 {
   auto &R = vf::report();
@@ -2492,6 +2649,8 @@ int main(int argc, char **argv)
     sptr_program(vf::mix(s, 4));
     fref_program(vf::mix(s, 5));
     variant_program(vf::mix(s, 6));
+    if ((i & 3) == 0)
+      visit_shape_program(vf::mix(s, 7));
   });
   return R.finish();
 }
